@@ -9,6 +9,7 @@ import (
 	"sort"
 	"strconv"
 	"strings"
+	"sync"
 	"time"
 
 	"github.com/mgtv-tech/redis-GunYu/config"
@@ -165,17 +166,18 @@ type Marker struct {
 
 // Block is one executed transaction (or a stand-alone command) at a target node.
 type Block struct {
-	Node      int               `json:"node"`
-	Seq       int               `json:"seq"` // request number of the EXEC (cluster-wide order for a ClusterSet)
-	InTxn     bool              `json:"intxn"`
-	Marker    *Marker           `json:"marker,omitempty"`
-	MarkerKey string            `json:"markerKey,omitempty"`
-	Business  [][][]byte        `json:"-"`
-	BusinessS [][]string        `json:"business"`
-	Record    map[string]string `json:"record,omitempty"` // the recovery record written in the block (latest or commit)
-	RecordKey string            `json:"recordKey,omitempty"`
-	IndexKey  string            `json:"indexKey,omitempty"`
-	Control   [][]string        `json:"control,omitempty"` // bookkeeping commands other than marker / record / index
+	Node       int               `json:"node"`
+	Seq        int               `json:"seq"` // request number of the EXEC (cluster-wide order for a ClusterSet)
+	InTxn      bool              `json:"intxn"`
+	Marker     *Marker           `json:"marker,omitempty"`
+	MarkerKey  string            `json:"markerKey,omitempty"`
+	Business   [][][]byte        `json:"-"`
+	BusinessS  [][]string        `json:"business"`
+	Record     map[string]string `json:"record,omitempty"` // the recovery record written in the block (latest or commit)
+	RecordKey  string            `json:"recordKey,omitempty"`
+	IndexKey   string            `json:"indexKey,omitempty"`
+	Control    [][]string        `json:"control,omitempty"` // bookkeeping commands other than marker / record / index
+	ControlRaw [][][]byte        `json:"-"`
 }
 
 func isControlKey(k []byte) bool {
@@ -220,6 +222,7 @@ func Blocks(node int, log []fake.LogEntry) []Block {
 				b.MarkerKey = string(e.Args[0])
 			} else {
 				b.Control = append(b.Control, quote(e.Cmd, e.Args))
+				b.ControlRaw = append(b.ControlRaw, append([][]byte{[]byte(e.Cmd)}, e.Args...))
 			}
 		case ctl && e.Cmd == "hset" && (strings.Contains(string(e.Args[0]), ":latest:{") || strings.Contains(string(e.Args[0]), ":commit:{")) && b.Record == nil:
 			b.Record = map[string]string{}
@@ -231,6 +234,7 @@ func Blocks(node int, log []fake.LogEntry) []Block {
 			b.IndexKey = string(e.Args[0])
 		case ctl:
 			b.Control = append(b.Control, quote(e.Cmd, e.Args))
+			b.ControlRaw = append(b.ControlRaw, append([][]byte{[]byte(e.Cmd)}, e.Args...))
 		default:
 			full := append([][]byte{[]byte(e.Cmd)}, e.Args...)
 			b.Business = append(b.Business, full)
@@ -252,3 +256,65 @@ func AllBlocks(t *Target) []Block {
 }
 
 func Atoi(s string) int64 { n, _ := strconv.ParseInt(s, 10, 64); return n }
+
+// World adds a cluster-wide request budget to a target: once Arm(k) further requests have been processed, every node
+// drops the connection of any further request without executing it (the target, or the link to it, is dead) until Heal.
+type World struct {
+	T      *Target
+	mu     sync.Mutex
+	budget int64 // < 0: unlimited
+	used   int64
+	dead   bool
+	OnDead func()
+	total  int64
+	// Counts: only requests for which it returns true consume the budget (nil: all). Uncounted requests are still refused once the target is dead.
+	Counts func(cmd string, args [][]byte) bool
+}
+
+func NewWorld(t *Target) *World {
+	w := &World{T: t, budget: -1}
+	for _, n := range t.Nodes() {
+		n.Lock()
+		n.RefuseOf = func(conn int, cmd string, args [][]byte) bool { return w.refuse(cmd, args) }
+		n.Unlock()
+	}
+	return w
+}
+
+func (w *World) refuse(cmd string, args [][]byte) bool {
+	w.mu.Lock()
+	defer w.mu.Unlock()
+	if w.dead {
+		return true
+	}
+	if w.Counts != nil && !w.Counts(cmd, args) {
+		return false
+	}
+	if w.budget >= 0 && w.used >= w.budget {
+		w.dead = true
+		if w.OnDead != nil {
+			go w.OnDead()
+		}
+		return true
+	}
+	w.used++
+	w.total++
+	return false
+}
+
+// Arm: the next k requests are processed, everything after is refused.
+func (w *World) Arm(k int) { w.mu.Lock(); w.budget, w.used, w.dead = int64(k), 0, false; w.mu.Unlock() }
+
+// Heal: the target is reachable again (its state is what the processed requests left).
+func (w *World) Heal() {
+	w.mu.Lock()
+	w.budget, w.used, w.dead = -1, 0, false
+	w.mu.Unlock()
+	for _, n := range w.T.Nodes() {
+		n.DropConns()
+	}
+}
+
+func (w *World) Dead() bool   { w.mu.Lock(); defer w.mu.Unlock(); return w.dead }
+func (w *World) Used() int64  { w.mu.Lock(); defer w.mu.Unlock(); return w.used }
+func (w *World) Total() int64 { w.mu.Lock(); defer w.mu.Unlock(); return w.total }
